@@ -23,7 +23,8 @@ RULE = ("align cases: start/end molecules of 1..9 atoms (either one larger, equa
         "atom names from a hydrogen-sensitive alphabet (H7, 7H, H_7, HA7, h7, OH7, C7, rarely a name without letters), "
         "restraints None / [] / random in-range pairs with duplicates / rarely negative or out-of-range indices, "
         "deformation types None or explicit, ignore_hydrogens on/off, auto-guess on/off, rarely a disconnected mobile "
-        "molecule; guessers: every (n, parts) and (n1, n2) size pair of the tier's square, random multi-residue pairs "
+        "molecule; guessers: K every (n, parts) and (n1, n2) size pair of the tier's square (12 quick / 40 thorough), S the full "
+        "40 x 40 grid in every tier plus two-residue molecules with residue lengths up to 40, random multi-residue pairs "
         "with equal / similar / different residue names and different residue counts; histories: 2-3 consecutive "
         "align_molecules calls sharing one restraint list object (same or fresh Alignment, 60 % start smaller), the "
         "caller's list compared after every call; manager: systems of 2-3 species "
@@ -1052,12 +1053,22 @@ def corpus(ctx):
         S["corpus"] += 1
         if bad:
             ctx.violation("align: " + "; ".join(bad), case, key="align")
-    for n1, n2 in [(1, 1), (3, 2), (2, 3), (7, 3), (3, 7), (40, 39)]:
+    # (15, 11), (30, 13), (39, 37): lengths on which a floating-point part width loses the last atom (seeded/C10-3)
+    for n1, n2 in [(1, 1), (3, 2), (2, 3), (7, 3), (3, 7), (40, 39), (15, 11), (11, 15), (30, 13), (39, 37)]:
         bad = oracle_residue(n1, n2, 5, 11)
         S["corpus"] += 1
         if bad:
             ctx.violation("guess_residue_restrains: " + "; ".join(bad), {"kind": "residue", "n1": n1, "n2": n2, "o1": 5, "o2": 11},
                           key="residue")
+    bad = oracle_split(15, 11)
+    S["corpus"] += 1
+    if bad:
+        ctx.violation("_split_list: " + "; ".join(bad), {"kind": "split", "n": 15, "parts": 11}, key="split")
+    s1, s2 = two_residue_pair(np.random.RandomState(7), [15, 3], [11, 4])
+    bad = oracle_protein(s1, s2)
+    S["corpus"] += 1
+    if bad:
+        ctx.violation("guess_protein_restrains: " + "; ".join(bad), {"kind": "protein", "m1": s1, "m2": s2}, key="protein")
     for case in CORPUS_HISTORY:
         bad = oracle_history(case)
         S["corpus"] += 1
@@ -1295,6 +1306,22 @@ def gen_protein_pair(rs):
     return mk(names, sizes1), mk(names2, sizes2), kind
 
 
+def two_residue_pair(rs, sizes1, sizes2):
+    """two molecules with the same residue names and the given residue lengths (chains)"""
+    names = [str(x) for x in rs.choice(RESPOOL, size=len(sizes1), replace=False)]
+
+    def mk(sizes_):
+        atoms = []
+        k = 0
+        for r, (nm, z) in enumerate(zip(names, sizes_)):
+            for _ in range(z):
+                atoms.append(["C%d" % k, nm, r + 1])
+                k += 1
+        n = len(atoms)
+        return {"atoms": atoms, "pos": rs.uniform(0, 3, (n, 3)).tolist(), "bonds": [[i, i + 1] for i in range(n - 1)]}
+    return mk(sizes1), mk(sizes2)
+
+
 def oracle_on(d):
     k = d.get("kind")
     if k == "align":
@@ -1362,7 +1389,7 @@ def oracle(ctx, scale):
             fails += 1
             ctx.violation("align history: " + "; ".join(bad), case, key="history")
     S["align_history_x%d" % scale] = nh
-    N = ctx.n(12, 40)
+    N = 40          # pure and cheap: the full grid of the property text in every tier (K's Coq grid stays 12 x 12 in quick)
     cnt = 0
     for nn in range(1, N + 1):
         for parts in range(1, nn + 1):
@@ -1372,15 +1399,27 @@ def oracle(ctx, scale):
                 fails += 1
                 ctx.violation("_split_list: " + "; ".join(bad), {"kind": "split", "n": nn, "parts": parts}, key="split")
     S["split_exhaustive_1<=parts<=n<=%d" % N] = cnt
-    if scale > 1:
+    if scale == 1 or "residue_exhaustive_40x40" not in S:
         for n1 in range(1, 41):
             for n2 in range(1, 41):
                 bad = oracle_residue(n1, n2, 3, 8)
+                ctx.count(("sres", n1, n2), True)
                 if bad:
                     fails += 1
                     ctx.violation("guess_residue_restrains: " + "; ".join(bad), {"kind": "residue", "n1": n1, "n2": n2, "o1": 3, "o2": 8},
                                   key="residue")
         S["residue_exhaustive_40x40"] = 1600
+    # two-residue molecules with residue lengths up to 40 through guess_protein_restrains
+    n2r = ctx.n(200, 1500) * scale
+    for _ in range(n2r):
+        purge_tmp()
+        s1, s2 = two_residue_pair(rs, [int(x) for x in rs.randint(1, 41, size=2)], [int(x) for x in rs.randint(1, 41, size=2)])
+        bad = oracle_protein(s1, s2)
+        ctx.count(("sprot2", spec_sizes(s1), spec_sizes(s2)), True)
+        if bad:
+            fails += 1
+            ctx.violation("guess_protein_restrains: " + "; ".join(bad), {"kind": "protein", "m1": s1, "m2": s2}, key="protein")
+    S["protein_two_residues_len<=40_x%d" % scale] = n2r
     npz = ctx.n(150, 2000) * scale
     for _ in range(npz):
         purge_tmp()
